@@ -198,6 +198,8 @@ func cmdCheck(args []string) int {
 	var discharged []string
 	retTotal, retDead := map[string]int{}, map[string]int{}
 	var deadReturns []string
+	var deadLoops []string
+	loopEdges, loopDead := map[string]int{}, map[string]int{}
 	for _, r := range results {
 		funcs = append(funcs, r.Display)
 		for a := range r.G.assumes {
@@ -215,6 +217,18 @@ func cmdCheck(args []string) int {
 			evs = append(evs, ev)
 			if o.ExpectSat {
 				nCover++
+				if o.Kind == "cover-loop" {
+					loopKey := o.Name
+					if i := strings.LastIndex(loopKey, "#"); i > 0 {
+						loopKey = loopKey[:i]
+					}
+					loopEdges[loopKey]++
+					if o.Result == "unsat" {
+						loopDead[loopKey]++
+						deadLoops = append(deadLoops, o.Name+" at "+o.Pos.String())
+					}
+					continue
+				}
 				if o.Kind == "cover-return" {
 					retTotal[o.Fn]++
 					if o.Result == "unsat" {
@@ -275,6 +289,19 @@ func cmdCheck(args []string) int {
 	for fn, n := range retTotal {
 		if n > 0 && retDead[fn] == n {
 			broken = append(broken, "vacuous: no return of "+fn+" is reachable under its contract and the assumed callee contracts")
+		}
+	}
+
+	{
+		var keys []string
+		for k := range loopEdges {
+			keys = append(keys, k)
+		}
+		sort.Strings(keys)
+		for _, k := range keys {
+			if loopEdges[k] > 0 && loopDead[k] == loopEdges[k] {
+				broken = append(broken, "vacuous: no back edge of "+k+" is reachable under the contract and the assumed callee contracts (every inv-preserve obligation of the loop holds trivially)")
+			}
 		}
 	}
 
@@ -468,6 +495,7 @@ func cmdCheck(args []string) int {
 			"functions_under_contract": funcs,
 			"covers_checked":           nCover,
 			"unreachable_returns":      deadReturns,
+			"unreachable_back_edges":   deadLoops,
 			"backends":                 backends,
 			"solver_ms_total":          solverMs,
 			"load_s":                   l.loadS,
